@@ -901,7 +901,16 @@ class FnAnalysis:
                 if s.ctrl is not None:
                     outs.append((s, ("unit",)))
                     continue
-                if stmt["els"] is not None:
+                cm = _ctor_match(v, stmt["pat"]) if stmt["els"] is not None else None
+                if stmt["els"] is not None and cm is True:
+                    self.ev(s, "decide", stmt, how="letelse", outcome=True, cond=v, pat=stmt["pat"], cond_node=stmt["init"], folded=True)
+                elif stmt["els"] is not None and cm is False:
+                    self.ev(s, "decide", stmt, how="letelse", outcome=False, cond=v, pat=stmt["pat"], cond_node=stmt["init"], folded=True)
+                    for s3, _ in self.eval(stmt["els"], s):
+                        if s3.ctrl is not None:
+                            outs.append((s3, ("unit",)))
+                    continue
+                elif stmt["els"] is not None:
                     # refutable: else-branch path diverges
                     s_else = s.fork()
                     self.ev(s_else, "decide", stmt, how="letelse", outcome=False, cond=v, pat=stmt["pat"], cond_node=stmt["init"])
@@ -1024,6 +1033,16 @@ class FnAnalysis:
             for s, v in self.eval(c["e"], st):
                 if s.ctrl is not None:
                     continue
+                cm = _ctor_match(v, c["pat"])
+                if cm is True:
+                    self.ev(s, "decide", c, how="iflet", outcome=True, cond=v, pat=c["pat"], cond_node=c["e"], folded=True)
+                    self.bind(s, c["pat"], v, c["e"])
+                    outs.append((s, True))
+                    continue
+                if cm is False:
+                    self.ev(s, "decide", c, how="iflet", outcome=False, cond=v, pat=c["pat"], cond_node=c["e"], folded=True)
+                    outs.append((s, False))
+                    continue
                 s_no = s.fork()
                 self.ev(s_no, "decide", c, how="iflet", outcome=False, cond=v, pat=c["pat"], cond_node=c["e"])
                 outs.append((s_no, False))
@@ -1074,9 +1093,16 @@ class FnAnalysis:
             if s.ctrl is not None:
                 outs.append((s, v))
                 continue
-            n = len(e["arms"])
-            for i, arm in enumerate(e["arms"]):
-                sa = s.fork() if i < n - 1 else s
+            arms = list(enumerate(e["arms"]))
+            # a visible constructor value selects its arm
+            verdicts = [_ctor_match(v, a["pat"]) if a["guard"] is None else None for _, a in arms]
+            if True in verdicts:
+                arms = [arms[verdicts.index(True)]]
+            else:
+                arms = [x for x, vd in zip(arms, verdicts) if vd is not False]
+            n = len(arms)
+            for j, (i, arm) in enumerate(arms):
+                sa = s.fork() if j < n - 1 else s
                 self.ev(sa, "decide", e, how="match", outcome=i, cond=v, pat=arm["pat"], cond_node=e["e"], arm=arm)
                 self.bind(sa, arm["pat"], v, e["e"])
                 if arm["guard"] is not None:
@@ -1243,6 +1269,23 @@ class FnAnalysis:
         return outs
 
     def e_MCall(self, e, st):
+        fn0 = e.get("fn") or ""
+        if fn0.endswith(("::try_for_each", "::for_each")) and len(e["args"]) == 1 and e["args"][0]["k"] == "Closure" and len(e["args"][0]["params"]) == 1:
+            # `iter.for_each(|x| body)` / `iter.try_for_each(|x| body)?` is a loop over the iterator's elements
+            clos = e["args"][0]
+            outs = []
+            for s, itv in self.eval(e["recv"], st):
+                if s.ctrl is not None:
+                    outs.append((s, ("unit",)))
+                    continue
+                fake = {"k": "For", "id": clos.get("id"), "loc": e.get("loc"), "body": clos["body"], "pat": clos["params"][0], "iter": e["recv"], "ty": "()"}
+                lid = fake["id"]
+
+                def pre(s0, itv=itv, lid=lid, fake=fake):
+                    self.bind(s0, fake["pat"], ("elem", itv, lid), fake["iter"])
+                for s2, _ in self.loop_common(fake, s, pre, iter_term=itv):
+                    outs.append((s2, ("call", "core::result::Result::Ok", (("unit",),), None) if fn0.endswith("try_for_each") else ("unit",)))
+            return outs
         exprs = [e["recv"]] + e["args"]
         outs = []
         for s, vals in self.eval_seq(exprs, st):
@@ -1438,6 +1481,31 @@ def is_streamlike_ty(ty):
     if m:
         return is_streamlike_ty(m.group(1))
     return False
+
+
+def _ctor_match(v, pat):
+    """True/False when the value is a visible enum-constructor application and the pattern's top constructor is known; None otherwise"""
+    while pat is not None and pat.get("k") in ("RefPat", "GuardPat"):
+        pat = pat["pat"]
+    if pat is None:
+        return None
+    k = pat.get("k")
+    if k == "TupleStruct":
+        pc = pat.get("ctor")
+    elif k == "PathPat":
+        pc = pat.get("def")
+    elif k == "Struct":
+        pc = pat.get("adt")
+    else:
+        return None
+    while isinstance(v, tuple) and v and v[0] == "mut":
+        v = v[1]
+    if isinstance(v, tuple) and v and v[0] == "call" and v[3] is None and pc is not None:
+        vc = v[1]
+        known = ("core::option::Option::Some", "core::option::Option::None", "core::result::Result::Ok", "core::result::Result::Err")
+        if vc in known and pc in known:
+            return vc == pc
+    return None
 
 
 def _const_truth(v):
